@@ -7,6 +7,10 @@ mod rt;
 #[cfg(feature = "b1")]
 mod sem_struct;
 #[cfg(feature = "b1")]
+mod sem_enum;
+#[cfg(feature = "b1")]
+mod sem_flat;
+#[cfg(feature = "b1")]
 mod feat;
 #[cfg(feature = "b1")]
 mod corpus;
